@@ -420,6 +420,8 @@ func CheckC14(e *Env) int {
 	progs = append(progs, paramLocalCollisionFamily()...)
 	progs = append(progs, dirVsPackageNameFamily()...)
 	progs = append(progs, sameNamedValuesFamily()...)
+	progs = append(progs, namedResultsFamily()...)
+	progs = append(progs, copiedHelperFirstImportFamily()...)
 	results := RunPool(e, progs, PoolOpts{Execute: true, Name: "c14"})
 	byKey := map[key]*ProgResult{}
 	for _, pr := range results {
